@@ -81,6 +81,11 @@ Proof.
   destruct w; simpl in *; auto.
 Qed.
 
+(* byte strings proper: every entry is a byte *)
+Definition wfb (b : bytes) : Prop := Forall (fun x => x < 256) b.
+(* trie key length in bits: 6 prefix bytes + a 32-byte hash *)
+Definition tkbits : nat := 8 * 38.
+
 Section RootFacts.
   Variable hash : bytes -> bytes.
   Variable enc : bytes -> Spec.key.
@@ -90,11 +95,17 @@ Section RootFacts.
   Variable tree_update : TR -> list (@op bytes) -> TR.
   Variable tree_root : TR -> R.
   Variable tree_empty : TR.
-  Variable n : nat.
+  (* U: the key universe of the run — the state keys module code ever touches.  Collision-freeness of the hash is
+     assumed on U only (a premise about the run, not about the function: no injective hash into 32 bytes exists). *)
+  Variable U : bytes -> Prop.
+  Notation n := tkbits.
 
-  Hypothesis hash_inj : forall a b, hash a = hash b -> a = b.
-  Hypothesis enc_inj : forall a b, enc a = enc b -> a = b.
-  Hypothesis enc_len : forall k t, tree_key hash k = Some t -> length (enc t) = n.
+  Hypothesis hash_len : forall x, length (hash x) = 32%nat.
+  Hypothesis hash_wfb : forall x, wfb (hash x).
+  Hypothesis hash_inj_U : forall k k', U k -> U k' -> hash (skipn 7 k) = hash (skipn 7 k') -> skipn 7 k = skipn 7 k'.
+  (* bytes.ToBools: 8 bits per byte, injective on proper byte strings of equal length *)
+  Hypothesis enc_len : forall a, length (enc a) = (8 * length a)%nat.
+  Hypothesis enc_inj : forall a b, wfb a -> wfb b -> length a = length b -> enc a = enc b -> a = b.
   Hypothesis root_eqb_spec : forall a b, root_eqb a b = true <-> a = b.
   (* C10_root_is_function_of_map *)
   Hypothesis H_C10 : forall h1 h2 : list (list (@op bytes)),
@@ -109,9 +120,12 @@ Section RootFacts.
 
   Definition tkey (k : bytes) : option Spec.key := option_map enc (tree_key hash k).
 
-  Lemma wfkey_tree_key : forall k, wfkey k -> exists t, tree_key hash k = Some t.
+  (* a state key module code may touch: state prefix + >= 6 bytes, proper bytes, inside the run's key universe *)
+  Definition ukey (k : bytes) : Prop := wfkey k /\ U k /\ wfb k.
+
+  Lemma wfkey_tree_key : forall k, ukey k -> exists t, tree_key hash k = Some t.
   Proof.
-    intros k [r [E L]]. subst. unfold tree_key. simpl length.
+    intros k [[r [E L]] _]. subst. unfold tree_key. simpl length.
     destruct (Nat.ltb (S (length r)) 7) eqn:B; eauto. apply Nat.ltb_lt in B. lia.
   Qed.
 
@@ -122,22 +136,41 @@ Section RootFacts.
     - reflexivity.
   Qed.
 
-  Lemma tkey_inj : forall k k' t, wfkey k -> wfkey k' -> tkey k = Some t -> tkey k' = Some t -> k = k'.
+  Lemma wfb_app : forall a b, wfb a -> wfb b -> wfb (a ++ b).
+  Proof. intros. apply Forall_app; auto. Qed.
+  Lemma wfb_firstn : forall m a, wfb a -> wfb (firstn m a).
   Proof.
-    intros k k' t [r [E L]] [r' [E' L']] H H'. subst. unfold tkey in *.
+    intros m a H. revert m. induction H; intros [|m]; simpl; constructor; auto. apply IHForall.
+  Qed.
+
+  Lemma tree_key_len : forall k t, tree_key hash k = Some t -> length t = 38%nat.
+  Proof.
+    intros k t H. destruct (tree_key_shape hash k t H) as [L E]. subst t.
+    rewrite app_length, hash_len, firstn_length, skipn_length. lia.
+  Qed.
+
+  Lemma tkey_inj : forall k k' t, ukey k -> ukey k' -> tkey k = Some t -> tkey k' = Some t -> k = k'.
+  Proof.
+    intros k k' t [[r [E L]] [Uk Wk]] [[r' [E' L']] [Uk' Wk']] H H'. subst. unfold tkey in *.
     rewrite tree_key_wf in H, H' by auto. cbn [option_map] in H, H'.
     assert (H2 : enc (firstn 6 r ++ hash (skipn 6 r)) = enc (firstn 6 r' ++ hash (skipn 6 r'))) by congruence.
+    inversion Wk; inversion Wk'; subst.
     apply enc_inj in H2.
-    apply app_inv_len in H2. 2:{ rewrite !firstn_length. lia. }
-    destruct H2 as [F S]. apply hash_inj in S. f_equal.
-    rewrite <- (firstn_skipn 6 r), <- (firstn_skipn 6 r'). congruence.
+    - apply app_inv_len in H2. 2:{ rewrite !firstn_length. lia. }
+      destruct H2 as [F S].
+      assert (S' : skipn 7 (0 :: r) = skipn 7 (0 :: r')) by (apply hash_inj_U; auto).
+      change (skipn 7 (0 :: r)) with (skipn 6 r) in S'. change (skipn 7 (0 :: r')) with (skipn 6 r') in S'.
+      f_equal. rewrite <- (firstn_skipn 6 r), <- (firstn_skipn 6 r'). congruence.
+    - apply wfb_app; [apply wfb_firstn; auto | apply hash_wfb].
+    - apply wfb_app; [apply wfb_firstn; auto | apply hash_wfb].
+    - rewrite !app_length, !hash_len, !firstn_length. lia.
   Qed.
 
   (* M is the tree image of the state s: exactly the bindings tree_key k |-> hash v for the bindings k |-> v of s;
      in particular a key that is not in s (deleted) contributes nothing *)
   Definition img (s : store) (M : list (Spec.key * bytes)) : Prop :=
     forall tk hv, mget tk M = Some hv <-> exists k v, lookup s k = Some v /\ tkey k = Some tk /\ hv = hash v.
-  Definition allwf (s : store) : Prop := forall k v, lookup s k = Some v -> wfkey k.
+  Definition allwf (s : store) : Prop := forall k v, lookup s k = Some v -> ukey k.
 
   Lemma img_mget_eq : forall s s' M M', img s M -> img s' M' -> (forall k, lookup s k = lookup s' k) ->
     forall tk, mget tk M = mget tk M'.
@@ -153,7 +186,7 @@ Section RootFacts.
   Lemma img_ext : forall s s' M, img s M -> (forall k, lookup s k = lookup s' k) -> img s' M.
   Proof. intros s s' M I E tk hv. rewrite (I tk hv). split; intros [k [v [A B]]]; exists k, v; rewrite E in *; auto. Qed.
 
-  Lemma img_write : forall s M w t, allwf s -> img s M -> wfkey (wkey w) -> tree_key hash (wkey w) = Some t ->
+  Lemma img_write : forall s M w t, allwf s -> img s M -> ukey (wkey w) -> tree_key hash (wkey w) = Some t ->
     img (apply_write s w) (map_apply M (enc t, option_map hash (wval w))) /\ allwf (apply_write s w).
   Proof.
     intros s M w t W I Hk Ht.
@@ -182,7 +215,7 @@ Section RootFacts.
   Qed.
 
   (* a list of writes with distinct, well-formed keys: the batch handed to the tree keeps the tree image in step *)
-  Lemma writes_step : forall ws s M, allwf s -> img s M -> NoDup (map wkey ws) -> (forall w, In w ws -> wfkey (wkey w)) ->
+  Lemma writes_step : forall ws s M, allwf s -> img s M -> NoDup (map wkey ws) -> (forall w, In w ws -> ukey (wkey w)) ->
     exists ops, tree_updates ws = Some ops /\
                 img (apply_writes s ws) (fold_left map_apply ops M) /\ allwf (apply_writes s ws) /\
                 (forall o, In o ops -> exists w, In w ws /\ tkey (wkey w) = Some (fst o)) /\
@@ -213,7 +246,7 @@ Section RootFacts.
     a_tree a = fold_left tree_update hist tree_empty /\ keys_ok n hist /\
     img (a_state a) (fold_left map_batch hist []) /\ allwf (a_state a).
 
-  Lemma inv_step : forall a hist ws, Inv a hist -> NoDup (map wkey ws) -> (forall w, In w ws -> wfkey (wkey w)) ->
+  Lemma inv_step : forall a hist ws, Inv a hist -> NoDup (map wkey ws) -> (forall w, In w ws -> ukey (wkey w)) ->
     exists ops, tree_updates ws = Some ops /\
       forall diffs ts, Inv {| a_state := apply_writes (a_state a) ws; a_tree := tree_update (a_tree a) ops; a_diffs := diffs;
                               a_tree_state := ts |} (hist ++ [ops]).
@@ -224,7 +257,7 @@ Section RootFacts.
     rewrite !fold_left_app. simpl. split; [rewrite T; auto|]. split; [|split; auto].
     - intros b o Hb Ho. apply in_app_or in Hb. destruct Hb as [Hb|[Hb|[]]]. + eapply K; eauto.
       + subst b. destruct (K2 o Ho) as [w [A B]]. unfold tkey in B.
-        destruct (tree_key hash (wkey w)) eqn:Q; simpl in B; inversion B. eapply enc_len; eauto.
+        destruct (tree_key hash (wkey w)) eqn:Q; simpl in B; inversion B. rewrite enc_len. erewrite tree_key_len; eauto.
     - unfold map_batch. rewrite dedupe_id; auto.
   Qed.
 
@@ -260,8 +293,8 @@ Section RootFacts.
         constructor; auto.
   Qed.
 
-  Lemma commit_cache_wkeys_wf : forall c ws d, commit_cache c = (ws, d) -> (forall k, In k (map fst c) -> wfkey k) ->
-    forall w, In w ws -> wfkey (wkey w).
+  Lemma commit_cache_wkeys_wf : forall c ws d, commit_cache c = (ws, d) -> (forall k, In k (map fst c) -> ukey k) ->
+    forall w, In w ws -> ukey (wkey w).
   Proof. intros. apply H0. pose proof (commit_cache_keys _ _ _ H w H1) as P. destruct w; auto. Qed.
 
   (* commit_root_is_smt_of_state: a real (non dry-run) Commit of any well-formed staged cache on a consistent database,
@@ -269,7 +302,7 @@ Section RootFacts.
      absent), whose tree-state record carries the returned root, and the returned root is the root of EVERY history of
      tree batches that builds the tree image of that state (deleted keys contribute nothing to the image). *)
   Theorem commit_root_is_smt_of_state : forall a hist c height prev expected a' r,
-    Inv a hist -> cache_good (a_state a) c -> root_eqb prev (tree_root (a_tree a)) = true ->
+    Inv a hist -> cache_good ukey (a_state a) c -> root_eqb prev (tree_root (a_tree a)) = true ->
     commit a c height prev expected false = COk a' r ->
     exists ops, Inv a' (hist ++ [ops]) /\ r = tree_root (a_tree a') /\
       (forall k, lookup (a_state a') k = view (a_state a) c k) /\
@@ -292,7 +325,7 @@ Section RootFacts.
   Qed.
 
   Theorem commit_never_panics : forall a hist c height prev expected dry,
-    Inv a hist -> cache_good (a_state a) c -> root_eqb prev (tree_root (a_tree a)) = true ->
+    Inv a hist -> cache_good ukey (a_state a) c -> root_eqb prev (tree_root (a_tree a)) = true ->
     match commit a c height prev expected dry with COk _ _ | CMismatch _ => True | _ => False end.
   Proof.
     intros a hist c height prev expected dry HI [ND [Co Wf]] Hp. unfold commit.
@@ -378,8 +411,8 @@ Section RootFacts.
       + constructor; auto.
   Qed.
 
-  Theorem diff_undoes_commit : forall s c ws d, cache_good s c -> commit_cache c = (ws, d) ->
-    NoDup (map wkey (revert_writes d)) /\ (forall w, In w (revert_writes d) -> wfkey (wkey w)) /\
+  Theorem diff_undoes_commit : forall s c ws d, cache_good ukey s c -> commit_cache c = (ws, d) ->
+    NoDup (map wkey (revert_writes d)) /\ (forall w, In w (revert_writes d) -> ukey (wkey w)) /\
     forall k, lookup (apply_writes (apply_writes s ws) (revert_writes d)) k = lookup s k.
   Proof.
     intros s c ws d [ND [Co Wf]] H.
@@ -417,7 +450,7 @@ Section RootFacts.
        a_tree_state := Some ((H + 2 ^ 32 - 1) mod 2 ^ 32, tree_root (tree_update (a_tree a) ops)) |}.
 
   Lemma revert_step : forall a hist H d sr expected, Inv a hist -> diff_at (a_diffs a) H = Some d ->
-    NoDup (map wkey (revert_writes d)) -> (forall w, In w (revert_writes d) -> wfkey (wkey w)) ->
+    NoDup (map wkey (revert_writes d)) -> (forall w, In w (revert_writes d) -> ukey (wkey w)) ->
     root_eqb sr (tree_root (a_tree a)) = true ->
     exists ops, Inv (reverted a H d ops) (hist ++ [ops]) /\
       revert a H sr expected =
@@ -435,7 +468,7 @@ Section RootFacts.
   Inductive Chain (diffs : list (N * diff)) : N -> list store -> Prop :=
   | ch_one : forall H s, Chain diffs H [s]
   | ch_cons : forall H s s' rest d, 0 < H -> diff_at diffs H = Some d ->
-      NoDup (map wkey (revert_writes d)) -> (forall w, In w (revert_writes d) -> wfkey (wkey w)) ->
+      NoDup (map wkey (revert_writes d)) -> (forall w, In w (revert_writes d) -> ukey (wkey w)) ->
       (forall k, lookup (apply_writes s (revert_writes d)) k = lookup s' k) ->
       Chain diffs (H - 1) (s' :: rest) -> Chain diffs H (s :: s' :: rest).
 
@@ -484,7 +517,7 @@ Section RootFacts.
 
   (* a real Commit of the next block keeps the database good and pushes the new state on the chain *)
   Theorem commit_good : forall a H sts c expected a' r,
-    Good a H sts -> cache_good (a_state a) c -> H + 1 < 2 ^ 32 ->
+    Good a H sts -> cache_good ukey (a_state a) c -> H + 1 < 2 ^ 32 ->
     commit a c (H + 1) (tree_root (a_tree a)) expected false = COk a' r ->
     Good a' (H + 1) (a_state a' :: sts) /\ r = tree_root (a_tree a').
   Proof.
@@ -535,7 +568,7 @@ Section RootFacts.
   Qed.
 
   Theorem revert_restores_state_and_root : forall a H sts c a' r expected,
-    Good a H sts -> cache_good (a_state a) c -> H + 1 < 2 ^ 32 ->
+    Good a H sts -> cache_good ukey (a_state a) c -> H + 1 < 2 ^ 32 ->
     commit a c (H + 1) (tree_root (a_tree a)) None false = COk a' r ->
     exists a'', (forall k, lookup (a_state a'') k = lookup (a_state a) k) /\
                 tree_root (a_tree a'') = tree_root (a_tree a) /\
@@ -628,7 +661,7 @@ Section RootFacts.
 
   Inductive reach : appdb -> N -> Prop :=
   | rc_fresh : reach fresh 0
-  | rc_block : forall a H txs c v expected a' r, reach a H -> Forall tx_wf txs ->
+  | rc_block : forall a H txs c v expected a' r, reach a H -> Forall (tx_wf ukey) txs ->
       exec_txs (a_state a) (H + 1) [] no_snaps txs = (c, v) -> H + 1 < 2 ^ 32 ->
       commit a c (H + 1) (tree_root (a_tree a)) expected false = COk a' r -> reach a' (H + 1)
   | rc_revert : forall a H expected a' r, reach a H ->
@@ -642,7 +675,7 @@ Section RootFacts.
     induction 1.
     - exists [[]]. split; [apply fresh_good|]. auto.
     - destruct IHreach as [sts [G [L D0]]].
-      assert (Cg : cache_good (a_state a) c).
+      assert (Cg : cache_good ukey (a_state a) c).
       { eapply block_cache_good; eauto. - apply empty_cache_good. - apply no_snaps_good. }
       destruct (commit_good _ _ _ _ _ _ _ G Cg H3 H4) as [G' _].
       exists (a_state a' :: sts). split; auto. split. { simpl. rewrite L. lia. }
